@@ -3842,7 +3842,7 @@ class ContractionTreeCompressed(ContractionTree):
         if path is not None:
             from .pathfinders.path_basic import linear_to_ssa
 
-            ssa_path = linear_to_ssa(path)
+            ssa_path = linear_to_ssa(path, len(inputs))
 
         tree = cls(inputs, output, size_dict, **kwargs)
         terms = list(tree.gen_leaves())
